@@ -21,6 +21,7 @@ repairs (what goes wrong there, kernel-checked).
 -/
 import SmVerif.Lemmas.StorageSql
 import SmVerif.Lemmas.StorageLca
+import SmVerif.Lemmas.StorageZipDedup
 import SmVerif.Model.Generated
 
 namespace Sm.C10
@@ -94,6 +95,155 @@ theorem zip_sessions_faithful (s0 : List Sig) (rest : List (List Sig)) :
   obtain ⟨z, placed, h1, hg, hm⟩ := zipSessions_from_good rest z0 p0 hg0
   refine ⟨z, by simp [zipSessions, h0, h1], faithful_of_good z placed _ hg ?_⟩
   rw [hm, hm0]; simp
+
+/-- the structure behind the statements below: the zip written by any session sequence is `Good` for a
+    placement of the saved signatures and has contiguous, content-unique name chains (`GoodX`) -/
+theorem zip_sessions_structure (s0 : List Sig) (rest : List (List Sig)) :
+    ∃ z placed, zipSessions none (s0 :: rest) = .ok (some z) ∧ placed.map (·.2) = (s0 :: rest).flatten ∧
+      Good z placed ∧ GoodX z := by
+  obtain ⟨z0, p0, h0, hg0, hm0⟩ := zipSession_create s0
+  obtain ⟨z, placed, h1, hg, hm⟩ := zipSessions_from_good rest z0 p0 hg0
+  have hrun : zipSessions none (s0 :: rest) = .ok (some z) := by simp [zipSessions, h0, h1]
+  refine ⟨z, placed, hrun, by rw [hm, hm0]; simp, hg, ?_⟩
+  exact zipSessions_goodX (s0 :: rest) none (fun z hz => by cases hz) z hrun
+
+/-- LIST-level statement with exact duplicates allowed: reloading yields the saved signatures in save
+    order with every LATER exact duplicate removed (`dedup`: first occurrences; `mem_dedup`,
+    `nodup_dedup`).  Together with the manifest part of `Faithful` (one row per save) this is the precise
+    content of finding C10.1: a signature saved n times has n rows, one member, and is returned once. -/
+theorem zip_sessions_load_eq_dedup (s0 : List Sig) (rest : List (List Sig)) :
+    ∃ z, zipSessions none (s0 :: rest) = .ok (some z) ∧ zipLoad z = .ok (dedup (s0 :: rest).flatten) := by
+  obtain ⟨z, placed, hrun, hm, hg, hx⟩ := zip_sessions_structure s0 rest
+  exact ⟨z, hrun, by rw [← hm]; exact zipLoad_good_dedup z placed hg hx⟩
+
+/-- what `get_manifest(rebuild=True)` (`sourmash sig manifest`) lists for a zip written by any session
+    sequence, exactly (given C10.4): the rows of the signatures stored under a bare `<md5>.sig.gz` name,
+    with correct columns and location.  Hence: every md5 that was saved is represented by exactly one
+    row; a saved signature is missing iff it sits in a `_k` member, which happens only next to a
+    DIFFERENT saved signature with the same md5; so if signatures with equal md5 are equal, the rebuilt
+    manifest lists every saved signature. -/
+theorem zip_rebuilt_manifest_spec (s0 : List Sig) (rest : List (List Sig)) :
+    ∃ (z : Zip) (placed : Placed), zipSessions none (s0 :: rest) = .ok (some z) ∧ placed.map (·.2) = (s0 :: rest).flatten ∧
+      (∀ r, r ∈ zipRebuildManifest z ↔ ∃ p ∈ placed, p.1.suffix = none ∧ r = mkRow p.2 (some (.sig p.1))) ∧
+      (∀ s ∈ (s0 :: rest).flatten, ∃ r ∈ zipRebuildManifest z, r.md5 = s.md5) ∧
+      (∀ r1 ∈ zipRebuildManifest z, ∀ r2 ∈ zipRebuildManifest z, r1.md5 = r2.md5 → r1 = r2) ∧
+      (∀ p ∈ placed, mkRow p.2 (some (.sig p.1)) ∉ zipRebuildManifest z →
+        ∃ t ∈ (s0 :: rest).flatten, t.md5 = p.2.md5 ∧ t ≠ p.2) ∧
+      ((∀ a ∈ (s0 :: rest).flatten, ∀ b ∈ (s0 :: rest).flatten, a.md5 = b.md5 → a = b) →
+        ∀ p ∈ placed, mkRow p.2 (some (.sig p.1)) ∈ zipRebuildManifest z) := by
+  obtain ⟨z, placed, hrun, hm, hg, hx⟩ := zip_sessions_structure s0 rest
+  have hmem := mem_zipRebuildManifest z placed hg hx
+  have hmissing : ∀ p ∈ placed, mkRow p.2 (some (.sig p.1)) ∉ zipRebuildManifest z →
+      ∃ t ∈ (s0 :: rest).flatten, t.md5 = p.2.md5 ∧ t ≠ p.2 := by
+    intro p hp hnot
+    cases hk : p.1.suffix with
+    | none => exact absurd ((hmem _).2 ⟨p, hp, hk, rfl⟩) hnot
+    | some k =>
+      obtain ⟨q, hq, _, h2, h3⟩ := suffix_needs_twin z placed hg hx p hp k hk
+      exact ⟨q.2, by rw [← hm]; exact List.mem_map_of_mem hq, h2, h3⟩
+  refine ⟨z, placed, hrun, hm, fun r => by rw [hmem r]; rfl, ?_, ?_, hmissing, ?_⟩
+  · intro s hs
+    rw [← hm] at hs
+    simp only [List.mem_map] at hs
+    obtain ⟨p, hp, rfl⟩ := hs
+    cases hk : p.1.suffix with
+    | none => exact ⟨rowOf p, (hmem _).2 ⟨p, hp, hk, rfl⟩, rfl⟩
+    | some k =>
+      obtain ⟨q, hq, h1, h2, _⟩ := suffix_needs_twin z placed hg hx p hp k hk
+      exact ⟨rowOf q, (hmem _).2 ⟨q, hq, by rw [h1], rfl⟩, h2⟩
+  · intro r1 h1 r2 h2 e
+    obtain ⟨p1, hp1, k1, rfl⟩ := (hmem r1).1 h1
+    obtain ⟨p2, hp2, k2, rfl⟩ := (hmem r2).1 h2
+    have e' : p1.2.md5 = p2.2.md5 := e
+    have hn : p1.1 = p2.1 := by
+      have m1 := (hg.holds p1 hp1).2
+      have m2 := (hg.holds p2 hp2).2
+      obtain ⟨⟨a1, b1⟩, s1⟩ := p1
+      obtain ⟨⟨a2, b2⟩, s2⟩ := p2
+      simp only at k1 k2 m1 m2 e' ⊢
+      subst k1; subst k2
+      rw [m1, m2, e']
+    have hs : p1.2 = p2.2 := by
+      have r1 := (hg.holds p1 hp1).1
+      have r2 := (hg.holds p2 hp2).1
+      rw [hn, r2] at r1
+      simpa using r1.symm
+    simp [rowOf, hn, hs]
+  · intro hall p hp
+    apply Classical.byContradiction
+    intro hnot
+    obtain ⟨t, ht, h1, h2⟩ := hmissing p hp hnot
+    exact h2 (hall t ht p.2 (by rw [← hm]; exact List.mem_map_of_mem hp) h1)
+
+/-! ### reloading through a standalone manifest or a path list (modelled explicitly: manifest rows →
+    picklist and distinct locations → `load_file_as_index(location).select(picklist)` → signatures) -/
+
+/-- a `sig collect`-style standalone manifest over a zip written by any session sequence (all rows of the
+    zip's manifest, internal_location := the zip): reloading through it equals the generic reload -/
+theorem standalone_manifest_reload_faithful (s0 : List Sig) (rest : List (List Sig)) (k : Nat) :
+    ∃ z rows, zipSessions none (s0 :: rest) = .ok (some z) ∧ zipManifest z = some rows ∧
+      standaloneLoadFs [(k, z)] (relocate k rows) = .ok (dedup (s0 :: rest).flatten) ∧
+      standaloneLoadFs [(k, z)] (relocate k rows) = zipLoad z := by
+  obtain ⟨z, placed, hrun, hm, hg, hx⟩ := zip_sessions_structure s0 rest
+  have hload := zipLoad_good_dedup z placed hg hx
+  refine ⟨z, placed.map rowOf, hrun, by simp [zipManifest, hg.manifest], ?_, ?_⟩
+  · cases hp : placed with
+    | nil =>
+      rw [← hm, hp]
+      rfl
+    | cons a t =>
+      have := standalone_zip_part z placed hg hx k (fun _ => true) (fun _ _ _ _ _ _ => rfl)
+        (by rw [hp]; simp)
+      have hft : placed.filter (fun _ => true) = placed := List.filter_eq_self.2 (fun _ _ => rfl)
+      rw [hft] at this
+      rw [← hp, this, hm]
+  · cases hp : placed with
+    | nil =>
+      rw [hload, hp]
+      rfl
+    | cons a t =>
+      have := standalone_zip_part z placed hg hx k (fun _ => true) (fun _ _ _ _ _ _ => rfl)
+        (by rw [hp]; simp)
+      have hft : placed.filter (fun _ => true) = placed := List.filter_eq_self.2 (fun _ _ => rfl)
+      rw [hft] at this
+      rw [← hp, this, hload]
+
+/-- a standalone manifest listing only a PART of the zip (e.g. after a selection), under the exclusion of
+    C12.3 (no unlisted signature shares (name, md5[:8]) with a listed one): exactly the listed signatures
+    come back.  `P` says which placed signatures are listed. -/
+theorem standalone_manifest_part_faithful (s0 : List Sig) (rest : List (List Sig)) (k : Nat) :
+    ∃ (z : Zip) (placed : Placed), zipSessions none (s0 :: rest) = .ok (some z) ∧
+      placed.map (·.2) = (s0 :: rest).flatten ∧ zipManifest z = some (placed.map rowOf) ∧
+      ∀ P : MName × Sig → Bool,
+        (∀ p ∈ placed, ∀ q ∈ placed, P q = true → pickKey q = pickKey p → P p = true) →
+        placed.filter P ≠ [] →
+        standaloneLoadFs [(k, z)] (relocate k ((placed.filter P).map rowOf)) =
+          .ok (dedup ((placed.filter P).map (·.2))) := by
+  obtain ⟨z, placed, hrun, hm, hg, hx⟩ := zip_sessions_structure s0 rest
+  exact ⟨z, placed, hrun, hm, by simp [zipManifest, hg.manifest],
+    fun P hexcl hne => standalone_zip_part z placed hg hx k P hexcl hne⟩
+
+/-- a path list naming the zip (or two different zips): the generic reload(s), concatenated -/
+theorem pathlist_reload_faithful (s0 : List Sig) (rest : List (List Sig)) (k : Nat) :
+    ∃ z, zipSessions none (s0 :: rest) = .ok (some z) ∧
+      pathlistLoadFs [(k, z)] [k] = .ok (dedup (s0 :: rest).flatten) ∧
+      ∀ (z2 : Zip) (k2 : Nat) (o2 : List Sig), k ≠ k2 → zipLoad z2 = .ok o2 →
+        pathlistLoadFs [(k, z), (k2, z2)] [k, k2] = .ok (dedup (s0 :: rest).flatten ++ o2) := by
+  obtain ⟨z, placed, hrun, hm, hg, hx⟩ := zip_sessions_structure s0 rest
+  have hload := zipLoad_good_dedup z placed hg hx
+  rw [hm] at hload
+  exact ⟨z, hrun, pathlist_single z k _ hload, fun z2 k2 o2 hk h2 => pathlist_pair z z2 k k2 hk _ o2 hload h2⟩
+
+/-- collections that are not zips answer `select(picklist)` row by row: through a complete standalone
+    manifest the reload is the generic one -/
+theorem standalone_nonzip_complete (loaded : List Sig) (k : Nat) :
+    standaloneLoad (relocate k (loaded.map fun s => mkRow s none)) loaded = loaded := by
+  unfold standaloneLoad
+  rw [List.filter_eq_self]
+  intro s hs
+  simp only [picklistOf, relocate, List.map_map, List.contains_eq_mem, List.mem_map, Function.comp,
+    decide_eq_true_eq]
+  exact ⟨s, hs, by simp [mkRow]⟩
 
 /-- `_generate_filename`: the `_n` search terminates (the fuel is never exhausted), returns a name for this
     md5, "don't write" only when the very content is already there, "write" only on a name that is free in
@@ -340,6 +490,71 @@ theorem sqlite_roundtrip (sessions : List (List Sig))
     | cons a t ih => simp [sqlNorm, ih]
   exact this _
 
+/-- corollary, spelled out for the case the md5-keyed bookkeeping would get wrong: the i-th accepted
+    sketch is reloaded from the i-th `sourmash_sketches` row with ITS OWN hashes (and name, k, molecule,
+    seed), whatever the md5 columns say -- several sketches with one md5 (same hashes under different names,
+    a DNA k=21 and a protein k=7 sketch with the same hash values, ...) do not share hash rows.  This is
+    because the hash rows are keyed by the rowid `last_insert_rowid()` reports for the row just inserted
+    (`insertRowOrIgnore`: with a NULL location the insert is never ignored), not by md5. -/
+theorem sqlite_same_md5_sketches_keep_their_own_hashes (sessions : List (List Sig))
+    (hw : ∀ s ∈ sessions.flatten, s.num = 0 → s.track = false →
+      FlatSorted s.hashes ∧ ∀ h ∈ s.hashes, h.1 < 2 ^ 64) :
+    ∃ db fl, sqlSessions true SqlDb.empty sessions = .ok (db, fl) ∧
+      (sqlLoad db).length = (sqlSpecSessions [] sessions).1.length ∧
+      ∀ i (h1 : i < (sqlLoad db).length) (h2 : i < (sqlSpecSessions [] sessions).1.length),
+        (sqlLoad db)[i] = (sqlSpecSessions [] sessions).1[i] ∧
+        (sqlLoad db)[i].hashes = ((sqlSpecSessions [] sessions).1[i]).hashes := by
+  obtain ⟨db, h1, h2, _⟩ := sqlite_roundtrip sessions hw
+  refine ⟨db, _, h1, by rw [h2], ?_⟩
+  intro i hi1 hi2
+  have : (sqlLoad db)[i] = (sqlSpecSessions [] sessions).1[i] := by simp [h2]
+  exact ⟨this, by rw [this]⟩
+
+def sigP : Sig := { name := 6, filename := 0, md5 := 100, ksize := 7, mol := 1, num := 0, scaled := 1,
+                    seed := 42, track := false, hashes := [(1, 1), (2, 1), (3, 1)] }
+def sigQ : Sig := { name := 7, filename := 0, md5 := 100, ksize := 21, mol := 0, num := 0, scaled := 1,
+                    seed := 42, track := false, hashes := [(4, 1), (9223372036854775813, 1)] }
+
+/-- kernel-checked instance: A, B (same hashes, two names), P (protein k=7, same hash values, same md5) and
+    Q (a record carrying the same md5 with OTHER hashes: md5 is an arbitrary field in the model), over two
+    sessions; ids 1..4, every sketch comes back with its own hashes -/
+theorem sqlite_same_md5_example :
+    ∃ db fl, sqlSessions true SqlDb.empty [[sigA, sigB], [sigP, sigQ]] = .ok (db, fl) ∧
+      sqlLoad db = [sigA, sigB, sigP, sigQ] ∧ db.sketches.map (·.id) = [1, 2, 3, 4] ∧
+      (db.hashes.filter (·.2 = 4)).map (·.1) = [4, -9223372036854775803] := by
+  refine ⟨_, _, rfl, ?_, ?_, ?_⟩ <;> decide
+
+/-- the `UNIQUE(internal_location, md5sum)` + `INSERT OR IGNORE` trap, made explicit: had the index row
+    carried a NON-NULL location, the second same-md5 insert would be ignored, `last_insert_rowid()` would
+    still report the first sketch's id and the second sketch's hashes would be filed under the first
+    (kernel-checked on the table operation; `SqliteIndex.insert` always passes location None) -/
+theorem sqlite_insert_or_ignore_trap :
+    let r1 := insertRowOrIgnore SqlDb.empty 0 (mkRow sigA (some (.other 0))) 42
+    let r2 := insertRowOrIgnore r1.1 r1.2 (mkRow sigB (some (.other 0))) 42
+    r1.2 = 1 ∧ r2.2 = 1 ∧ r2.1.sketches.length = 1 ∧
+    (insertRowOrIgnore r1.1 r1.2 (mkRow sigB none) 42).2 = 2 := by
+  refine ⟨?_, ?_, ?_, ?_⟩ <;> decide
+
+/-- append sessions never disturb what is already stored: after any further sessions the reload starts
+    with exactly the signatures reloaded before, followed by newly accepted ones drawn from the new
+    sessions -/
+theorem sqlite_append_sessions (before after : List (List Sig))
+    (hw : ∀ s ∈ (before ++ after).flatten, s.num = 0 → s.track = false →
+      FlatSorted s.hashes ∧ ∀ h ∈ s.hashes, h.1 < 2 ^ 64) :
+    ∃ db1 fl1 db2 fl2 new, sqlSessions true SqlDb.empty before = .ok (db1, fl1) ∧
+      sqlSessions true SqlDb.empty (before ++ after) = .ok (db2, fl2) ∧
+      sqlLoad db2 = sqlLoad db1 ++ new ∧ (∀ s ∈ new, s ∈ after.flatten) ∧
+      sqlManifest db2 = sqlManifest db1 ++ new.map (mkRow · none) := by
+  have hw1 : ∀ s ∈ before.flatten, s.num = 0 → s.track = false →
+      FlatSorted s.hashes ∧ ∀ h ∈ s.hashes, h.1 < 2 ^ 64 := by
+    intro s hs; exact hw s (by simp only [List.flatten_append, List.mem_append]; exact Or.inl hs)
+  obtain ⟨db1, e1, l1, m1⟩ := sqlite_roundtrip before hw1
+  obtain ⟨db2, e2, l2, m2⟩ := sqlite_roundtrip (before ++ after) hw
+  obtain ⟨new, hn, hmem⟩ := sqlSpecSessions_prefix after (sqlSpecSessions [] before).1
+  refine ⟨db1, _, db2, _, new, e1, e2, ?_, hmem, ?_⟩
+  · rw [l2, l1, sqlSpecSessions_append, hn]
+  · rw [m2, m1, sqlSpecSessions_append, hn]; simp
+
 /-- what is refused and what is kept, spelled out for one `add` -/
 theorem sqlite_refusal_spec (acc : List Sig) (ss : Sig) :
     sqlOk acc ss = true ↔ ss.num = 0 ∧ ss.track = false ∧ ∀ f, acc.head? = some f → f.scaled = ss.scaled := by
@@ -401,10 +616,13 @@ def sigG : Sig := { name := 5, filename := 0, md5 := 400, ksize := 21, mol := 0,
 
 /-- what an LCA database hands back for an accepted signature: its name, flat, at the database's k /
     molecule / scaled, with exactly the hash values the database keeps (`lcaKept`: the downsampled sketch,
-    possibly empty) -/
+    possibly empty), in strictly ascending order without repetition; and when the input's hashes are
+    ascending (every well-formed sketch) the hash list IS the kept list, abundance 1 -/
 def LcaImage (k sc M mol : Nat) (s : Sig) (s' : Sig) : Prop :=
   s'.name = s.name ∧ (∀ x, x ∈ s'.hashes.map (·.1) ↔ x ∈ lcaKept M s) ∧ (∀ p ∈ s'.hashes, p.2 = 1) ∧
-  s'.track = false ∧ s'.num = 0 ∧ s'.scaled = sc ∧ s'.ksize = k ∧ s'.mol = mol
+  s'.track = false ∧ s'.num = 0 ∧ s'.scaled = sc ∧ s'.ksize = k ∧ s'.mol = mol ∧
+  FlatSorted s'.hashes ∧
+  ((s.hashes.map (·.1)).Pairwise (· < ·) → s'.hashes = (lcaKept M s).map fun h => (h, 1))
 
 /-- MAIN STATEMENT for LCA databases (current source: `_signatures` creates an entry for every idx).
     For every list of inserts: an insert is accepted iff `lcaOk` (same k and molecule, a scaled sketch no
@@ -415,27 +633,30 @@ theorem lca_roundtrip (k sc M mol : Nat) (l : List Sig) :
     let db := (lcaInserts (LcaDb.new k sc M mol) l).1
     let acc := (lcaSpec (LcaDb.new k sc M mol) l).1
     (lcaInserts (LcaDb.new k sc M mol) l).2 = (lcaSpec (LcaDb.new k sc M mol) l).2 ∧
-    db.len = acc.length ∧
+    db.len = acc.length ∧ db.saveLoad = db ∧
     ∃ imgs : List Sig, (db.signatures true).Perm imgs ∧ imgs.length = acc.length ∧
       ∀ i (h1 : i < imgs.length) (h2 : i < acc.length), LcaImage k sc M mol (acc[i]).2 (imgs[i]) := by
   intro db acc
   obtain ⟨inv, hfl, hM, hk, hmol, hsc⟩ := lcaInserts_inv l (LcaDb.new k sc M mol) [] (lcaInv_new k sc M mol)
   simp only [List.nil_append] at inv
   have hM' : db.maxHash = M := hM
-  refine ⟨hfl, inv.len, acc.map (fun e => lcaSigOf db e.1 e.2.name), signatures_perm db acc inv, by simp, ?_⟩
+  refine ⟨hfl, inv.len, saveLoad_eq db acc inv, acc.map (fun e => lcaSigOf db e.1 e.2.name),
+    signatures_perm db acc inv, by simp, ?_⟩
   intro i h1 h2
   simp only [List.getElem_map]
   have he : acc[i] ∈ acc := List.getElem_mem h2
-  refine ⟨rfl, ?_, foldl_insertHash_abund _ [] (by intro p hp; cases hp), rfl, rfl, hsc, hk, hmol⟩
-  intro x
-  rw [lcaSigOf_hashes, inv.owns]
-  constructor
-  · rintro ⟨e', he', e1, e2⟩
-    have : e' = acc[i] := inj_of_nodup_map acc (·.1) inv.idxNodup e' acc[i] he' he e1
-    subst this
-    rw [hM'] at e2; exact e2
-  · intro hx
-    exact ⟨acc[i], he, rfl, by rw [hM']; exact hx⟩
+  have hset : ∀ x, x ∈ (lcaSigOf db acc[i].1 acc[i].2.name).hashes.map (·.1) ↔ x ∈ lcaKept M acc[i].2 := by
+    intro x
+    rw [lcaSigOf_hashes, inv.owns]
+    constructor
+    · rintro ⟨e', he', e1, e2⟩
+      have : e' = acc[i] := inj_of_nodup_map acc (·.1) inv.idxNodup e' acc[i] he' he e1
+      subst this
+      rw [hM'] at e2; exact e2
+    · intro hx
+      exact ⟨acc[i], he, rfl, by rw [hM']; exact hx⟩
+  exact ⟨rfl, hset, foldl_insertHash_abund _ [] (by intro p hp; cases hp), rfl, rfl, hsc, hk, hmol,
+    lcaSigOf_flatSorted _ _ _, fun hasc => lcaSigOf_exact _ _ _ _ (lcaKept_pairwise M _ hasc) hset⟩
 
 /-- the acceptance test of `lcaSpec`, spelled out -/
 theorem lca_refusal_spec (db : LcaDb) (ss : Sig) :
@@ -456,9 +677,9 @@ theorem lca_refusal_spec (db : LcaDb) (ss : Sig) :
     exact ⟨⟨⟨⟨⟨h1, h2⟩, h3⟩, h4⟩, h5⟩, by simpa using h6⟩
 
 /-
-Not proved in `lca_roundtrip` (covered by the `store` stream only): that the hash list handed back is in
-ascending order (only its set of values and the abundances are), and the `_next_index` recomputation on
-JSON load (`saveLoad`).  The loaded md5 is a function of (k, hashes) and is recomputed by the harness.
+`lca_roundtrip` covers the JSON save/load (`saveLoad` changes nothing: the recomputed `_next_index` is the
+old one), the order of the returned hash lists (strictly ascending, no repetition) and, for ascending
+input, the hash list itself.  The loaded md5 is a function of (k, hashes) and is recomputed by the harness.
 -/
 
 /-! ### regression theorems about the OLD variant of `_signatures` (before commit 74325d9) -/
@@ -504,17 +725,19 @@ theorem old_variant_lca_roundtrip_partial (k sc M mol : Nat) (l : List Sig) :
   refine ⟨inv.len, ?_, ?_, ?_⟩
   · intro s' hs'
     obtain ⟨e, he, hex, rfl⟩ := (hmem s').1 hs'
-    refine ⟨e, he, (hown e he).1 hex, rfl, ?_, foldl_insertHash_abund _ [] (by intro p hp; cases hp),
-      rfl, rfl, hsc, hk, hmol⟩
-    intro x
-    rw [lcaSigOf_hashes, inv.owns]
-    constructor
-    · rintro ⟨e', he', e1, e2⟩
-      have : e' = e := inj_of_nodup_map acc (·.1) inv.idxNodup e' e he' he e1
-      subst this
-      rw [hM'] at e2; exact e2
-    · intro hx
-      exact ⟨e, he, rfl, by rw [hM']; exact hx⟩
+    have hset : ∀ x, x ∈ (lcaSigOf db e.1 e.2.name).hashes.map (·.1) ↔ x ∈ lcaKept M e.2 := by
+      intro x
+      rw [lcaSigOf_hashes, inv.owns]
+      constructor
+      · rintro ⟨e', he', e1, e2⟩
+        have : e' = e := inj_of_nodup_map acc (·.1) inv.idxNodup e' e he' he e1
+        subst this
+        rw [hM'] at e2; exact e2
+      · intro hx
+        exact ⟨e, he, rfl, by rw [hM']; exact hx⟩
+    exact ⟨e, he, (hown e he).1 hex, rfl, hset, foldl_insertHash_abund _ [] (by intro p hp; cases hp),
+      rfl, rfl, hsc, hk, hmol, lcaSigOf_flatSorted _ _ _,
+      fun hasc => lcaSigOf_exact _ _ _ _ (lcaKept_pairwise M _ hasc) hset⟩
   · intro e he hne
     exact ⟨lcaSigOf db e.1 e.2.name, (hmem _).2 ⟨e, he, (hown e he).2 hne, rfl⟩, rfl⟩
   · intro e he hnil s' hs' hname
